@@ -23,7 +23,15 @@ import (
 	"verif/internal/hc"
 )
 
-const RepoDir = "/repo"
+// RepoDir is the tree under test: /repo, unless VERIF_REPO names another
+// checkout (used only to try seeded changes without touching /repo; check.sh
+// then also links the driver against that checkout).
+var RepoDir = func() string {
+	if d := os.Getenv("VERIF_REPO"); d != "" {
+		return d
+	}
+	return "/repo"
+}()
 
 // VerifDir is where the framework lives (used to find the warm build cache).
 func VerifDir() string {
